@@ -868,9 +868,17 @@ class Merger:
         """Get a list of LHS insertion points for merge results."""
         # Loop through all insertion points and the elements in RHS
         nodes: List[NodeCoords] = []
+        seen_containers: set = set()
         for node_coord in lhs_proc.get_nodes(
             insert_at, default_value=rhs
         ):
+            # A Hash, Array, or Set reached more than once -- through an Alias
+            # or a path which revisits it -- is one node; merge into it once.
+            target_node = node_coord.node
+            if isinstance(target_node, (dict, list, CommentedSet, set)):
+                if id(target_node) in seen_containers:
+                    continue
+                seen_containers.add(id(target_node))
             nodes.append(node_coord)
 
         self.logger.debug(
